@@ -488,7 +488,13 @@ def check_remove_path(rep):
                                      {'kind': kind, 'remove': rm, 'got': repr(got),
                                       'exists_after': exists}, payload)
                     else:
-                        if rm == 'custom_raises':
+                        if rm == 'custom_raises' and kind == 'absent':
+                            # nothing to remove: whether remove is still called
+                            # (and its error surfaces) is not stated
+                            if got is not rm_exc and got is not body_exc:
+                                rep.fail('rmpath-exception-replaced',
+                                         {'kind': kind, 'got': repr(got)}, payload)
+                        elif rm == 'custom_raises':
                             if got is not rm_exc:
                                 rep.fail('rmpath-remove-error-lost',
                                          {'kind': kind, 'got': repr(got)}, payload)
